@@ -1,5 +1,5 @@
 From SV Require Import Base.ListX Store.Raw Store.RawRefine Store.CleanProps Store.Masked Store.StoreInv Store.Bag Store.Ledger
-  Store.ClearLedger Store.DeadHandle
+  Store.ClearLedger Store.DefaultLedger Store.DeadHandle
   World.Env World.Join World.SopLedger World.WorldLedger World.JoinLedger World.HistoryLedger World.WorldSpec World.World World.Simulation World.NoStuck.
 From Coq Require Import Sorting.Permutation.
 From SV Require Import Props.C08.
@@ -81,6 +81,27 @@ Check (C08_get_mut_or_default_conserves : forall ms m av e c, LInvS ms m ->
 Check (C08_every_storage_operation_conserves : forall ms m av ent so c, LInvS ms m ->
   let '(ms', out, c') := ms_sop ms av ent so c in
   exists m', LInvS ms' m' /\ conserves m m' (sop_ins ms av ent so) (sop_rets so out) c c').
+Check (C08_default_filled_insert_conserves : forall cells id v c, full cells ->
+  match u_insert (RDefault cells) id v c with
+  | (RDefault cells', c') =>
+      cx_stuck c' = cx_stuck c /\ full cells' /\
+      exists d, cx_drops c' = d ++ cx_drops c /\ Permutation (uids cells' ++ d) (uids cells ++ fst v :: minted c c')
+  | _ => False
+  end).
+Check (C08_default_filled_remove_conserves : forall cells id c, full cells -> (id < vlen cells)%N ->
+  match u_remove (RDefault cells) id c with
+  | (RDefault cells', t, c') =>
+      cx_stuck c' = cx_stuck c /\ cx_drops c' = cx_drops c /\ full cells' /\ pv_get cells id = Some t /\
+      Permutation (uids cells' ++ [fst t]) (uids cells ++ minted c c')
+  | _ => False
+  end).
+Check (C08_default_filled_clear_destroys_every_cell_once : forall cells mask c,
+  match u_clean (RDefault cells) mask c with
+  | (RDefault cells', c') =>
+      uids cells' = [] /\ cx_stuck c' = cx_stuck c /\ cx_mints c' = cx_mints c /\
+      exists d, cx_drops c' = d ++ cx_drops c /\ Permutation d (uids cells)
+  | _ => False
+  end).
 Check (C08_history_conserves : forall tr w L0, WInv w -> regs_ok w tr = true ->
   forallb (fun p => ledger_op (fst p)) tr = true -> env_content (s_env w) L0 ->
   exists Lf, env_content (s_env (fst (srun w tr))) Lf /\
